@@ -229,6 +229,21 @@ func c14(ctx *Ctx) {
 		docOf[id] = jsonv.Text(map[string]any{"p": map[string]any{"a": "v0"}, "other": "v1"})
 		wantOf[id] = map[string]any{"p": map[string]any{"a": "v0"}, "other": "v1"}
 	}
+	// names the generated code itself uses (helper types, locals, imported packages), as definition names of types that get
+	// unmarshal methods and as property names, with and without the YAML pass
+	for _, n := range []string{"Plain", "plain", "Plain_0", "raw", "value", "err", "j", "ok", "json", "yaml", "fmt", "errors", "reflect", "strings", "regexp", "math", "mapstructure", "time", "types", "error", "string", "len", "nil"} {
+		for _, extra := range []bool{false, true} {
+			cfg := baseCfg()
+			cfg.ExtraImports = extra
+			inner := J{"type": "object", "properties": J{"k": J{"type": "string", "minLength": 1, "pattern": "^v"}, n: J{"type": "integer", "minimum": 0, "multipleOf": 1}}, "required": A{"k"}, "additionalProperties": J{"type": "string"}}
+			id := fmt.Sprintf("C14/B/internal-name/%q/extra=%v", n, extra)
+			cases = append(cases, SCase{ID: id, Cfg: cfg, Axes: map[string]string{"pos": "siblings", "leaf": n},
+				Schema: J{"type": "object", "properties": J{"p": J{"$ref": "#/$defs/" + n}, n: J{"type": "string"}}, "required": A{"p"}, "$defs": J{n: inner}}})
+			doc := map[string]any{"p": map[string]any{"k": "v0", n: jsonv.MustParse("7")}, n: "v1"}
+			docOf[id] = jsonv.Text(doc)
+			wantOf[id] = doc
+		}
+	}
 	// a property named like the synthetic field
 	cases = append(cases, SCase{ID: "C14/B/additionalProperties-name", Cfg: baseCfg(), Axes: map[string]string{"pos": "siblings", "leaf": "additionalProperties"},
 		Schema: J{"type": "object", "properties": J{"additionalProperties": J{"type": "string"}, "AdditionalProperties": J{"type": "string"}}, "additionalProperties": J{"type": "integer"}}})
